@@ -3,7 +3,10 @@
 // declared functions can mention the same types.
 package vt
 
-import "fmt"
+import (
+	"fmt"
+	"reflect"
+)
 
 // Tok is the provenance token carried by every value a harness-owned user
 // function returns. Pointer identity of the Tok is instance identity.
@@ -102,13 +105,28 @@ func (e *TErr) Error() string {
 
 // Loc0..Loc3: functions whose code pointers are handed to dig.LocationForPC (Fn.LocPC): dig then reports the
 // constructor under this location (errors, callbacks, pictures) while its ID stays the constructor's own.
-func Loc0() {}
-func Loc1() {}
-func Loc2() {}
-func Loc3() {}
+func Loc0()     {}
+func Locm()     {}
+func Locff()    {}
+func Loc3m_fm() {}
 
-var LocFuncs = []func(){Loc0, Loc1, Loc2, Loc3}
+var LocFuncs = []func(){Loc0, Locm, Locff, Loc3m_fm}
+
+// LocNames: the names of LocFuncs (some end in letters of "-fm", the compiler's suffix of method values).
+var LocNames = []string{"Loc0", "Locm", "Locff", "Loc3m_fm"}
 
 // VS is a universe type of SLICE kind (a value carries its token in its first element); a nil VS is a legitimate
 // value - for instance a member of a value group - that carries none.
 type VS []V0
+
+// TwinA and TwinB return two DISTINCT interface types that print identically ("vt.Twin"): types declared in
+// different function bodies, as types of the same name in packages of the same name are.
+func TwinA() reflect.Type {
+	type Twin interface{ M0() }
+	return reflect.TypeOf((*Twin)(nil)).Elem()
+}
+
+func TwinB() reflect.Type {
+	type Twin interface{ M0() }
+	return reflect.TypeOf((*Twin)(nil)).Elem()
+}
